@@ -375,6 +375,15 @@ class Engine(
                 # operands are only Selects if they need to be subqueries.
                 new_lhs, new_lhs_needs_projection = lhs.strip()
                 new_rhs, new_rhs_needs_projection = rhs.strip()
+                if (new_lhs.columns - lhs.columns) & new_rhs.columns or (
+                    new_rhs.columns - rhs.columns
+                ) & new_lhs.columns:
+                    # Moving a projection after the join would re-expose a
+                    # column it removed that the other operand also has, and
+                    # the join could then take that column's values from the
+                    # wrong operand; keep the projections in subqueries.
+                    new_lhs, new_lhs_needs_projection = lhs, False
+                    new_rhs, new_rhs_needs_projection = rhs, False
                 if new_lhs_needs_projection or new_rhs_needs_projection:
                     projection = Projection(frozenset(lhs.columns | rhs.columns))
                 else:
